@@ -3,6 +3,7 @@ import ClaripyProofs.Lemmas.VSA.BalancerUnsat
 import ClaripyProofs.Lemmas.VSA.BalancerUnsatSigned
 import ClaripyProofs.Lemmas.VSA.BalancerNoLit
 import ClaripyProofs.Lemmas.VSA.BalancerSignedArms
+import ClaripyProofs.Lemmas.VSA.BalancerSignedLoop
 /-!
 # C25 — constraint_to_si never cuts off a satisfying assignment
 
@@ -246,6 +247,86 @@ theorem C25_handle_sound_signed_unsigned_reading (t : Tru) (bs' : Bounds) (hok :
     (hh : t.holdsU env) (h : handleCmp anno t [] = .ok bs') : Sound env bs' :=
   handleCmp_U_lone anno env hctx hnrm t bs' hok hop hh h
 
+/-! ### the other arms on signed orderings, the dispatch and the loop (round 5)
+
+`_balance_signext` behaves like `_balance_zeroext`: NOT meaning-preserving in the signed reading
+(`C25_sext_signed_not_meaning_preserving`), the unsigned reading of the new truism holds.  `_balance_and`, the scaling branch of
+`_balance_extract` (the only branch open to a signed operator) and `__lshift__` by 0 keep BOTH readings. -/
+
+/-- `_balance_signext` on a signed ordering (`k ≥ 1` extension bits): unchanged, or the UNSIGNED reading of the new truism
+holds — whether the old truism held in its signed or in its unsigned reading -/
+theorem C25_step_signed_sext (t t' : Tru) (k : Nat) (e : BV) (hl : t.lhs = .sext k e) (hk : 0 < k) (hok : TruOK anno env t)
+    (hop : sOrd t.op) (hh : t.holds env ∨ t.holdsU env) (h : balSext anno t k e = .ok t') (hs : symBV t'.lhs = true) :
+    t' = t ∨ (TruOK anno env t' ∧ t'.op = t.op ∧ t'.holdsU env) :=
+  balSext_s anno env hctx hnrm t t' k e hl hk hok hop hh h hs
+
+/-- `_balance_and` on any operator: each reading of the truism survives -/
+theorem C25_step_signed_and (t : Tru) (a b : BV) (hl : t.lhs = .bin .and a b) (hok : TruOK anno env t)
+    (hconv : ∃ p, convBV anno t.lhs [] = .ok p) (hs : symBV (balAnd t a b).lhs = true) :
+    TruOK anno env (balAnd t a b) ∧ (balAnd t a b).op = t.op ∧ (t.holds env → (balAnd t a b).holds env) ∧
+      (t.holdsU env → (balAnd t a b).holdsU env) :=
+  balAnd_s anno env hctx hnrm t a b hl hok hconv hs
+
+/-- `_balance_extract` on a signed ordering: unchanged, or the scaling branch — each reading of the truism survives -/
+theorem C25_step_signed_extract (t t' : Tru) (hi lo : Nat) (e : BV) (hl : t.lhs = .extract hi lo e) (hok : TruOK anno env t)
+    (hop : sOrd t.op) (hconv : ∃ p, convBV anno t.lhs [] = .ok p)
+    (h : balExtract anno t hi lo e = .ok t') (hs : symBV t'.lhs = true) :
+    t' = t ∨ (TruOK anno env t' ∧ t'.op = t.op ∧ (t.holds env → t'.holds env) ∧ (t.holdsU env → t'.holdsU env)) :=
+  balExtract_s anno env hctx hnrm t t' hi lo e hl hok hop hconv h hs
+
+/-- `_balance_lshift` on a signed ordering: unchanged, or a shift by 0 removed — each reading of the truism survives -/
+theorem C25_step_signed_shl (t t' : Tru) (e amt : BV) (hl : t.lhs = .bin .shl e amt) (hok : TruOK anno env t)
+    (hop : sOrd t.op) (hconv : ∃ p, convBV anno t.lhs [] = .ok p)
+    (h : balShl anno t e amt = .ok t') (hs : symBV t'.lhs = true) :
+    t' = t ∨ (TruOK anno env t' ∧ t'.op = t.op ∧ (t.holds env → t'.holds env) ∧ (t.holdsU env → t'.holdsU env)) :=
+  balShl_s anno env hctx hnrm t t' e amt hl hok hop hconv h hs
+
+/-- **per-step soundness, signed orderings** (every arm other than `+` / `-`, every width, also the degenerate
+`ZeroExt(0, ·)` / `SignExt(0, ·)`): a truism that holds in its signed or in its unsigned reading is turned into one that holds
+in one of the two; the unsigned reading is kept by every arm; the signed reading is kept by every arm that does not drop
+extension bits -/
+theorem C25_step_holds_signed (ta t' : Tru) (hok : TruOK anno env ta) (hconv : ∃ p, convBV anno ta.lhs [] = .ok p)
+    (hop : sOrd ta.op) (hnm : isModLhs ta.lhs = false) (hh : ta.holds env ∨ ta.holdsU env)
+    (h : balStep anno ta = .ok t') (hs : symBV t'.lhs = true) :
+    TruOK anno env t' ∧ t'.op = ta.op ∧ (t'.holds env ∨ t'.holdsU env) ∧ (ta.holdsU env → t'.holdsU env) ∧
+      (isWidthLhs ta.lhs = false → ta.holds env → t'.holds env) :=
+  balStep_s anno env hctx hnrm ta t' hok hconv hop hnm hh h hs
+
+/-- **the loop `_balance` on a signed ordering** when no constant is moved across `+` / `-`: a truism that holds (signed
+reading, or the unsigned reading left by an earlier arm) ends as one that holds in the reading that survives -/
+theorem C25_balance_holds_signed (t : Tru) (out : BalOut) (hok : TruOK anno env t) (hop : sOrd t.op)
+    (hh : t.holds env ∨ t.holdsU env) (h : balance1 anno t = .ok out) (hs : symBV out.t.lhs = true)
+    (hcov : out.usedMod = false) :
+    TruOK anno env out.t ∧ out.t.op = t.op ∧ (out.t.holds env ∨ out.t.holdsU env) :=
+  balance1_holds_s anno env hctx hnrm t out hok hop hh h hs hcov
+
+/-- the same loop keeps the UNSIGNED reading of a signed truism -/
+theorem C25_balance_holds_signed_unsigned_reading (t : Tru) (out : BalOut) (hok : TruOK anno env t) (hop : sOrd t.op)
+    (hh : t.holdsU env) (h : balance1 anno t = .ok out) (hs : symBV out.t.lhs = true) (hcov : out.usedMod = false) :
+    TruOK anno env out.t ∧ out.t.op = t.op ∧ out.t.holdsU env :=
+  balance1_holdsU_s anno env hctx hnrm t out hok hop hh h hs hcov
+
+/-- **balance + handle of a signed truism whose UNSIGNED reading holds** (`processTru`, no constant moved across `+` / `-`,
+any other arms on the way): the lone bound recorded for the final expression contains the value -/
+theorem C25_process_sound_signed_unsigned_reading (t : Tru) (res : Bounds × BalOut) (hok : TruOK anno env t) (hop : sOrd t.op)
+    (hh : t.holdsU env) (h : processTru anno t [] = .ok res) (hcov : res.2.usedMod = false) : Sound env res.1 :=
+  processTru_U_lone anno env hctx hnrm t res hok hop hh h hcov
+
+/-- **composite for one signed path through the arms, PARTIAL**: `processTru` (balance + handle) of a signed truism that
+holds — in its signed reading, as the truism and its implicit assumption do at the start, or in the unsigned reading — with no
+constant moved across `+` / `-` and any of `ZeroExt` / `SignExt` / `Concat` / `__and__` / `Extract` / `__lshift__` on the way:
+the final truism holds in one of the two readings, and when that is the UNSIGNED one the lone bound recorded for the final
+expression contains the value.  MISSING for the full `C25_balancer_sound_signed_full`: (a) a path that ends in the SIGNED
+reading after an arm (`__and__`, `Extract`, shift by 0 only) needs the bound of the partner path on the same expression — the
+pair argument of `C25_pair_sound_signed` is proved only for paths without such arms; (b) a path that STOPS at a
+`ZeroExt` / `SignExt` / `Concat` node (typically the implicit assumption `ZeroExt(k, e) >=s int_min`, whose high bits are not
+zero) leaves a lone bound in the signed reading, sound only if the signed minimum of the abstract value is not negative — a
+precision fact about the abstract extension that C24 does not provide. -/
+theorem C25_balancer_sound_signed_arms_partial (t : Tru) (res : Bounds × BalOut) (hok : TruOK anno env t) (hop : sOrd t.op)
+    (hh : t.holds env ∨ t.holdsU env) (h : processTru anno t [] = .ok res) (hcov : res.2.usedMod = false) :
+    (symBV res.2.t.lhs = true → res.2.t.holds env ∨ res.2.t.holdsU env) ∧ (res.2.t.holdsU env → Sound env res.1) :=
+  processTru_s_arms anno env hctx hnrm t res hok hop hh h hcov
+
 /-! ### without the hypothesis on the side facing a literal
 
 `hsym` above says: when `b` is a literal, `a` has a symbolic leaf.  The other case (two sides without a symbolic leaf, both of
@@ -319,15 +400,30 @@ theorem C25_zext_signed_not_meaning_preserving :
     concCmp .slt 8 0 9 = true ∧ concCmp .slt 4 0 9 = false ∧ concCmp (uOf .slt) 4 0 9 = true :=
   zext_signed_not_meaning_preserving
 
-/-- the full per-step statement for signed orderings (NOT proved; proved: `+` / `-` as rotations, `ZeroExt`, `Concat`): every
-arm other than `+` / `-` keeps "the truism holds in its signed or in its unsigned reading".  Missing: `_balance_signext`
-(same argument as `ZeroExt` with the sign bits known equal), `_balance_and`, the scaling branch of `_balance_extract`
-(value-preserving / order-preserving: both readings survive), `__lshift__` by 0. -/
+/-- the step `_balance_signext` is NOT meaning-preserving on a signed operator either: with `x` annotated `[0, 7]` (4 bits),
+`SignExt(4, x) <s 9` (8 bits) is rewritten to `x <s 9` at 4 bits (9 is -7 there); `x = 0` satisfies the first and not the second,
+only `x <u 9` survives.  With `y` annotated `[8, 15]`, `SignExt(4, y) >s 0xF3` becomes `y >s 3`; `y = 8` (-8) satisfies the
+first, not the second, and `y >u 3`.  Not a defect of the result: the real `constraint_to_si` answers `x ∈ [0, 7]`,
+`y ∈ [8, 15]` (the recorded bounds -8, read as 8, and 4) — `C25_handle_sound_signed_unsigned_reading` is the reason. -/
+theorem C25_sext_signed_not_meaning_preserving :
+    balStep (fun _ => SI.new 4 1 0 7) ⟨.slt, .sext 4 (.var 0 4), 9, 8⟩ = .ok ⟨.slt, .var 0 4, 9, 4⟩ ∧
+    concCmp .slt 8 (Conc.sext 4 8 0) 9 = true ∧ concCmp .slt 4 0 9 = false ∧ concCmp (uOf .slt) 4 0 9 = true ∧
+    balStep (fun _ => SI.new 4 1 8 15) ⟨.sgt, .sext 4 (.var 0 4), 0xF3, 8⟩ = .ok ⟨.sgt, .var 0 4, 3, 4⟩ ∧
+    concCmp .sgt 8 (Conc.sext 4 8 8) 0xF3 = true ∧ concCmp .sgt 4 8 3 = false ∧ concCmp (uOf .sgt) 4 8 3 = true :=
+  sext_signed_not_meaning_preserving
+
+/-- the full per-step statement for signed orderings: every arm other than `+` / `-` keeps "the truism holds in its signed or
+in its unsigned reading".  PROVED since round 5: `C25_step_holds_signed_full_proved` below (from `C25_step_holds_signed`). -/
 def C25_step_holds_signed_full : Prop :=
   ∀ (anno : Nat → SI) (env : Nat → Nat), (∀ i, (anno i).WF ∧ (anno i).mem (env i)) → (∀ i, Nrm (anno i)) →
     ∀ (ta t' : Tru), TruOK anno env ta → (∃ p, convBV anno ta.lhs [] = .ok p) → sOrd ta.op → isModLhs ta.lhs = false →
       (ta.holds env ∨ ta.holdsU env) → balStep anno ta = .ok t' → symBV t'.lhs = true →
       TruOK anno env t' ∧ t'.op = ta.op ∧ (t'.holds env ∨ t'.holdsU env)
+
+theorem C25_step_holds_signed_full_proved : C25_step_holds_signed_full :=
+  fun anno env hctx hnrm ta t' hok hconv hop hnm hh h hs =>
+    let ⟨h1, h2, h3, _, _⟩ := C25_step_holds_signed anno env hctx hnrm ta t' hok hconv hop hnm hh h hs
+    ⟨h1, h2, h3⟩
 
 /-- the full composite for signed orderings (NOT proved; `C25_balancer_sound_signed` is the part where neither path uses an
 arm other than `+` / `-` and both end at the same expression): sound whenever no path combines a constant moved across
@@ -418,5 +514,29 @@ example : boundsOf (doit (fun _ => SI.top 4) signedC) = some [(.free 0 4, some 5
 def unsatC : BExp := .cmp .slt (.free 0 4) (.const 8 4)
 set_option maxRecDepth 100000 in
 example : (match doit (fun _ => SI.top 4) unsatC with | .ok .unsat => true | _ => false) = true := by decide
+
+/-- non-vacuity of the signed per-arm / loop theorems: the arms do fire on signed operators.  `(ZeroExt(4, x) & 15) <=s 5`
+goes through `__and__` and `ZeroExt` to `x <=s 5` at 4 bits; `(x .. 0#2)[5:2] >s 3` is scaled to `(x .. 0#2) >s 12`;
+`x << 0 >=s 3` loses the shift; `SignExt(4, x) <s 9` with `x ∈ [0, 7]` goes to `x <s 9` (9 is -7: only the unsigned reading
+holds, e.g. at `x = 0`); none moves a constant across `+` / `-`. -/
+example :
+    balance1 (fun _ => SI.top 4) ⟨.sle, .bin .and (.zext 4 (.free 0 4)) (.const 15 8), 5, 8⟩ =
+      .ok ⟨⟨.sle, .free 0 4, 5, 4⟩, false, true⟩ ∧
+    balance1 (fun _ => SI.top 4) ⟨.sgt, .extract 5 2 (.concat (.free 0 4) (.const 0 2)), 3, 4⟩ =
+      .ok ⟨⟨.sgt, .concat (.free 0 4) (.const 0 2), 12, 6⟩, false, true⟩ ∧
+    balance1 (fun _ => SI.top 4) ⟨.sge, .bin .shl (.free 0 4) (.const 0 4), 3, 4⟩ = .ok ⟨⟨.sge, .free 0 4, 3, 4⟩, false, true⟩ ∧
+    balance1 (fun _ => SI.new 4 1 0 7) ⟨.slt, .sext 4 (.var 0 4), 9, 8⟩ = .ok ⟨⟨.slt, .var 0 4, 9, 4⟩, false, true⟩ ∧
+    concCmp .slt 8 (Conc.sext 4 8 0) 9 = true ∧ concCmp .slt 4 0 9 = false ∧ concCmp (uOf .slt) 4 0 9 = true := by
+  decide
+
+/-- non-vacuity of `C25_balancer_sound_signed_arms_partial` / `C25_process_sound_signed_unsigned_reading`:
+`(ZeroExt(4, x) & 15) <s 9` ends at `x <s 9` (4 bits) with the lone upper bound -8, read as `[0, 8]`; `x = 3` satisfies the
+truism (unsigned reading at the end: `3 <u 9`) and lies inside -/
+def boundsOfP (r : M (Bounds × BalOut)) : Option Bounds := match r with | .ok p => some p.1 | _ => none
+set_option maxRecDepth 100000 in
+example : boundsOfP (processTru (fun _ => SI.top 4) ⟨.slt, .bin .and (.zext 4 (.free 0 4)) (.const 15 8), 9, 8⟩ []) =
+      some [(.free 0 4, none, some (-8))] ∧
+    concCmp .slt 8 3 9 = true ∧ concCmp (uOf .slt) 4 3 9 = true ∧ InB 4 none (some (-8)) 3 := by
+  decide
 
 end Claripy.Props.C25
